@@ -5,6 +5,8 @@ use crate::query::Query;
 
 impl Query for Segment {
     fn process<'a, T: Queryable>(&self, step: State<'a, T>) -> State<'a, T> {
+        #[cfg(jsonpath_rust_verif)]
+        crate::verif::point(1);
         match self {
             Segment::Descendant(segment) => segment.process(step.flat_map(process_descendant)),
             Segment::Selector(selector) => selector.process(step),
